@@ -133,6 +133,33 @@ Theorem de_range_error_refuted :
 Proof. vm_compute. repeat split. Qed.
 Print Assumptions de_range_error_refuted.
 
+(* map keys that are numbers: koto's ValueKey equality (KNumber PartialEq), mirrored exactly *)
+Theorem key_equality_numbers : forall a b,
+    kv_eqb (KNum a) (KNum b) =
+    match a, b with
+    | NI x, NI y => x =? y
+    | NF x, NF y => f64_eqb x y
+    | NI x, NF y => f64_eqb (i64_to_f64 x) y
+    | NF x, NI y => f64_eqb x (i64_to_f64 y)
+    end.
+Proof. exact SerdeProofs.key_equality_numbers. Qed.
+Print Assumptions key_equality_numbers.
+
+(* 0 = 0.0 = -0.0, 1 = 1.0, 2^53+1 = 2^53 as f64 (the `as f64` rounding), NaN <> NaN *)
+Example ex_key_eq :
+  kv_eqb (KNum (NI 0)) (KNum (NF 0)) = true /\
+  kv_eqb (KNum (NI 0)) (KNum (NF 9223372036854775808)) = true /\
+  kv_eqb (KNum (NF 4607182418800017408)) (KNum (NI 1)) = true /\
+  kv_eqb (KNum (NI 9007199254740993)) (KNum (NF 4845873199050653696)) = true /\
+  kv_eqb (KNum (NI 9007199254740993)) (KNum (NI 9007199254740992)) = false /\
+  kv_eqb (KNum (NF 9221120237041090560)) (KNum (NF 9221120237041090560)) = false.
+Proof. vm_compute. repeat split. Qed.
+
+(* a document with the keys 0.0, 0, 0.0: one entry, first key kept, last value wins *)
+Example ex_key_collapse :
+  de (DMap [(DF32 0, DStruct []); (DInt U16 0, DSome DUnit); (DF32 0, DChar 10)]) = Ok (KMap [(KNum (NF 0), KStr [10])]).
+Proof. vm_compute. reflexivity. Qed.
+
 (* ---------------------------------------------------------------- non-vacuity *)
 
 (* {"a": [1, 2.5, null], 5: "x"}  is serializable, its normal form differs from it
